@@ -1,6 +1,9 @@
 import ALV.Common.Json
 import ALV.Model.C05
+import ALV.Model.C05List
+import ALV.Model.C05Lin
 import ALV.Spec.C05
+import ALV.Spec.C05List
 namespace ALV.Driver.C05
 open ALV ALV.J ALV.C07 ALV.C05
 
@@ -45,6 +48,23 @@ def mToJson (x : M Json) : Except String Json :=
   | .error (.drv s) => .error s
 
 def boolJ (b : Bool) : Json := Json.bool b
+
+def getOp (j : Json) : Except String BinOp := do
+  match ← getStr j with
+  | "add" => pure .add
+  | "sub" => pure .sub
+  | "mul" => pure .mul
+  | "div" => pure .div
+  | s => throw s!"C05: bad operator {s}"
+
+def getKind (j : Json) : Except String NumKind := do
+  match ← getStr j with
+  | "int" => pure .int
+  | "bool" => pure .bool
+  | "float" => pure .float
+  | "fraction" => pure .fraction
+  | "complex" => pure .complex
+  | s => throw s!"C05: bad number kind {s}"
 
 /-- model evaluation of an expression tree, operator by operator as Python dispatches them -/
 partial def evalM (j : Json) : M F := do
@@ -94,6 +114,27 @@ partial def evalM (j : Json) : M F := do
   | [Json.str "rsubs", c, a] => do let f ← evalM a; liftP (rsubScalar (← rat c) f)
   | [Json.str "rmuls", c, a] => do let f ← evalM a; liftP (rmulScalar (← rat c) f)
   | [Json.str "rdivs", c, a] => do let f ← evalM a; liftP (rdivScalar (← rat c) f)
+  -- the right operand is a LinearFilter that is not a ZFilter / a ZFilter handed to a reflected dunder
+  | [Json.str "dom", op, a, b] => do
+      let _ ← evalM a
+      let _ ← evalM b
+      throw (.py (opForeign (← liftD (getOp op))))
+  | [Json.str "rdom", op, a, b] => do
+      let _ ← evalM a
+      let _ ← evalM b
+      throw (.py (ropZFilter (← liftD (getOp op))))
+  -- the exponent spelled as int / bool / float / Fraction / complex
+  | [Json.str "powk", a, n, k] => do
+      let f ← evalM a
+      liftP (powSpelled f (← liftD (getInt n)) (← liftD (getKind k)))
+  -- type casts through the constructor
+  | [Json.str "cast", a] => do liftP (C05.cast (← evalM a))
+  | [Json.str "lfcast", a] => do liftP (C05.cast (← evalM a))
+  | [Json.str "castdiv", a, b] => do
+      let f ← evalM a
+      let g ← evalM b
+      liftP (castDiv f g)
+  | [Json.str "castdivs", a, c] => do let f ← evalM a; liftP (castDivScalar f (← rat c))
   | _ => throw (.drv s!"C05: bad expression {j.compress}")
 
 /-- the rational function a tree denotes (textbook field of fractions); `none` = undefined
@@ -134,6 +175,19 @@ partial def evalS (j : Json) : Except String (Option F) := do
   | [Json.str "rsubs", c, a] => do let c ← getRat c; un a (fun f => some (rSub (rScalar c) f))
   | [Json.str "rmuls", c, a] => do let c ← getRat c; un a (fun f => some (rMul (rScalar c) f))
   | [Json.str "rdivs", c, a] => do let c ← getRat c; un a (fun f => rDiv (rScalar c) f)
+  -- operands of different domains: no rational function is specified
+  | [Json.str "dom", _, _, _] => pure none
+  | [Json.str "rdom", _, _, _] => pure none
+  -- the property speaks of integer powers: int / bool spellings
+  | [Json.str "powk", a, n, k] => do
+      let n ← getInt n
+      match ← getKind k with
+      | .int | .bool => un a (fun f => rPow f n)
+      | _ => pure none
+  | [Json.str "cast", a] => un a some
+  | [Json.str "lfcast", a] => un a some
+  | [Json.str "castdiv", a, b] => bin a b rDiv
+  | [Json.str "castdivs", a, c] => do let c ← getRat c; un a (fun f => rDiv f (rScalar c))
   | _ => throw s!"C05: bad expression {j.compress}"
 
 def sigJ (r : Except PyErr (List Rat)) : Json := exceptJ rats r
@@ -223,6 +277,146 @@ def laws (f g h : F) (n m : Nat) (c : Rat) (k : Nat) (xs : List Rat) (withSubst 
     ("sig_cascade", sigEq (cascadeCall [f, g, h] xs) (callE (mulE (mulE F' G') H') X)),
     ("sig_parallel", sigEq (parallelCall [f, g, h] xs) (callE (addE (addE F' G') H') X)) ]
 
+/-! ### filter list objects -/
+
+abbrev O := Obj Rat
+
+instance : Inhabited O := ⟨.plain false .nil⟩
+instance : Inhabited (M O) := ⟨.ok default⟩
+
+/-- what the callables with identity `i` do to a sample (the harness builds the same functions) -/
+def envFn (i : Nat) (x : Rat) : Rat := if i % 2 == 0 then x * x else x + 1
+
+partial def flShape : FL Rat → Json
+  | .leaf _ => Json.str "Z"
+  | .num _ => Json.str "N"
+  | .other i => Json.arr [Json.str "F", natToJson i]
+  | .node k ps => Json.arr [Json.bool k.par, natToJson k.sub, Json.arr (ps.toList.map flShape)]
+
+def objShape : O → Json
+  | .fl o => flShape o
+  | .plain t ps => Json.arr [Json.str (if t then "tuple" else "list"), Json.arr (ps.toList.map flShape)]
+
+def itemsOf : O → Option (FLs Rat)
+  | .fl (.node _ ps) => some ps
+  | .plain _ ps => some ps
+  | _ => none
+
+def unmodelled {β} (what : String) : M β := throw (.drv s!"C05: outside the object model: {what}")
+
+/-- object expressions: constructor call shapes and the `list` methods -/
+partial def evalO (j : Json) : M O := do
+  let l ← liftD (getArr j)
+  let asFL (x : O) : M (FL Rat) := match x with
+    | .fl o => pure o
+    | _ => unmodelled "a plain list as a part"
+  let node (x : O) : M (FL Rat) := match x with
+    | .fl (.node k ps) => pure (.node k ps)
+    | _ => unmodelled "method of a filter list on another object"
+  match l with
+  | [Json.str "zf", t] => do pure (.fl (.leaf (← evalM t)))
+  | [Json.str "n", c] => do pure (.fl (.num (← liftD (getRat c))))
+  | [Json.str "fn", i] => do pure (.fl (.other (← liftD (getNat i))))
+  | [Json.str "plain", t, xs] => do
+      let items ← (← liftD (getArr xs)).mapM fun x => do asFL (← evalO x)
+      pure (.plain (← liftD (getBool t)) (FLs.ofList items))
+  | [Json.str "new", par, sb, shape, xs] => do
+      let k : Kind := ⟨← liftD (getBool par), ← liftD (getNat sb)⟩
+      let objs ← (← liftD (getArr xs)).mapM evalO
+      let args : List (Arg Rat) ← match ← liftD (getStr shape) with
+        | "star" => objs.mapM fun x => match x with
+            | .fl (.num c) => pure (Arg.number c)
+            | .fl o => pure (Arg.filt o)
+            | .plain _ ps => pure (Arg.iter ps)
+        | _ => do            -- "list" / "tuple" / "gen": one iterable argument holding the parts
+            let items ← objs.mapM asFL
+            pure [Arg.iter (FLs.ofList items)]
+      match construct k args with
+      | some o => pure (.fl o)
+      | none => unmodelled "a coefficient list as a part"
+  | [Json.str "add", a, b] => do liftP (Obj.add (← evalO a) (← evalO b))
+  | [Json.str "mul", a, n] => do liftP (Obj.mulInt (← evalO a) (← liftD (getInt n)))
+  | [Json.str "rmul", n, a] => do liftP (Obj.mulInt (← evalO a) (← liftD (getInt n)))
+  | [Json.str "append", a, x] => do
+      match FL.append (← node (← evalO a)) (← asFL (← evalO x)) with
+      | some o => pure (.fl o)
+      | none => unmodelled "append"
+  | [Json.str "extend", a, b] => do
+      let bo ← evalO b
+      match itemsOf bo with
+      | none => unmodelled "extend with a non-list"
+      | some items =>
+        match FL.extend (← node (← evalO a)) items with
+        | some o => pure (.fl o)
+        | none => unmodelled "extend"
+  | [Json.str "imul", a, n] => do liftP (Obj.mulInt (← evalO a) (← liftD (getInt n)))
+  | [Json.str "slice", a, i, jj] => do
+      match FL.slice (← node (← evalO a)) (← liftD (getNat i)) (← liftD (getNat jj)) with
+      | some o => pure o
+      | none => unmodelled "slice"
+  | _ => throw (.drv s!"C05: bad object expression {j.compress}")
+
+def polysJ (r : Except PyErr (MPoly Rat × MPoly Rat)) : Json :=
+  exceptJ (fun nd => Json.mkObj [("num", polyJ (sortAsc nd.1)), ("den", polyJ (sortAsc nd.2))]) r
+
+partial def flSize : FL Rat → Nat
+  | .node k ps => 2 + k.sub + (ps.toList.map flSize).foldl (· + ·) 0
+  | _ => 1
+
+def hashJ : O → Json
+  | .fl o => match FL.hash o with
+    | .ok (.powers l) => Json.mkObj [("powers", ints l)]
+    | .ok (.number c) => Json.mkObj [("number", ratToJson c)]
+    | .ok (.ident i) => Json.mkObj [("ident", natToJson i)]
+    | .error e => errJ e
+  | .plain false _ => errJ .type
+  | .plain true ps => if ps.toList.all (fun p => match FL.hash p with | .ok _ => true | .error _ => false)
+      then Json.mkObj [("tuple", Json.bool true)] else errJ .type
+
+/-- every ZFilter leaf is causal (what the spec's `applyS` needs) and has a non-zero denominator -/
+partial def flCausal : FL Rat → Bool
+  | .leaf f => rCausal (rOf f)
+  | .node _ ps => ps.toList.all flCausal
+  | _ => true
+
+def observeO (x : O) (xs : List Rat) : Json :=
+  match x with
+  | .fl o =>
+    let spec : Json := match FL.rval o with
+      | none => Json.null
+      | some r => Json.mkObj [("num", polyJ r.num), ("den", polyJ r.den)]
+    let specOut : Json := match o with
+      | .node _ _ => if flCausal o then rats (FL.applyS envFn o xs) else Json.null
+      | _ => Json.null
+    Json.mkObj [("shape", objShape x), ("len", match x.len with | some n => natToJson n | none => Json.null),
+      ("out", match o with
+        | .node _ _ => sigJ (FL.call envFn o xs)
+        | _ => Json.null),
+      ("polys_coded", match FL.polysC (4 * flSize o + 8) o with
+        | .ok none => Json.null
+        | .ok (some nd) => polysJ (.ok nd)
+        | .error e => errJ e),
+      ("polys_fixed", polysJ (FL.polys o)),
+      ("linear", boolJ (FL.linear o)),
+      ("hash", hashJ x), ("spec", spec), ("spec_out", specOut)]
+  | .plain _ _ =>
+    Json.mkObj [("shape", objShape x), ("len", match x.len with | some n => natToJson n | none => Json.null),
+      ("hash", hashJ x)]
+
+/-! ### fractional delays -/
+
+def ratTrunc (k : Rat) : Int := if k < 0 then -((-k).floor) else k.floor
+
+def getFTerm (j : Json) : Except String (Rat × Rat) := do
+  match ← getArr j with
+  | [a, b] => pure (← getRat a, ← getRat b)
+  | _ => throw "expected [power, coeff]"
+
+/-- the terms in `terms()` order (ascending powers) with `left = int(k)`, `w = k - left` -/
+def fterms (l : List (Rat × Rat)) : List (FTerm Rat) :=
+  let sorted := l.mergeSort (fun a b => a.1 ≤ b.1)
+  sorted.map fun kv => ⟨ratTrunc kv.1, kv.1 - (ratTrunc kv.1 : Int), kv.2⟩
+
 def handle (entry : String) (j : Json) : Except String Json := do
   let xs ← getList getRat (fieldD j "xs" (Json.arr []))
   match entry with
@@ -289,6 +483,28 @@ def handle (entry : String) (j : Json) : Except String Json := do
           ("out", if causal then rats (if kind == "cascade" then cascadeApply parts xs else parallelApply parts xs)
                   else Json.null)]
     pure <| Json.mkObj [("model", m), ("spec", s)]
+  | "nest" =>
+    let m ← mToJson (do
+      let x ← evalO (← liftD (field j "obj"))
+      pure (observeO x xs))
+    pure <| Json.mkObj [("model", m)]
+  | "eqm" =>
+    let m ← mToJson (do
+      let pool ← (← liftD (getArr (← liftD (field j "pool")))).mapM evalO
+      pure (Json.mkObj [
+        ("eq", Json.arr (pool.map fun a => Json.arr (pool.map fun b => boolJ (Obj.eq a b)))),
+        ("ne", Json.arr (pool.map fun a => Json.arr (pool.map fun b => boolJ (Obj.ne a b)))),
+        ("hash", Json.arr (pool.map hashJ)),
+        ("shape", Json.arr (pool.map objShape))]))
+    pure <| Json.mkObj [("model", m)]
+  | "frac" =>
+    let num ← getList getFTerm (← field j "num")
+    let den ← getList getFTerm (← field j "den")
+    let m := exceptJ (fun g => Json.mkObj [("num", polyJ (sortAsc g.num)), ("den", polyJ (sortAsc g.den))])
+      (linearizeF (fterms num) (fterms den))
+    -- the weights of one term add up to one: the coefficient sums (the gain at z = 1) are kept
+    let sum (l : List (Rat × Rat)) : Rat := l.foldl (fun a kv => a + kv.2) 0
+    pure <| Json.mkObj [("model", m), ("spec", Json.mkObj [("sum_num", ratToJson (sum num)), ("sum_den", ratToJson (sum den))])]
   | _ => throw s!"C05: unknown entry {entry}"
 
 end ALV.Driver.C05
